@@ -50,6 +50,14 @@ CLAIMED.update({
          "For every invertible affine map the loop body and the whole loop are equivariant; with the initialisation this gives equivariance of the fit under per-coordinate scaling (either sign), translation and permutation; every iterate keeps the location a convex combination of the data (inside the bounding box) and the scale matrix symmetric positive definite for non-degenerate data; nu in (0,inf] given the bisect bracket; non-finite dof (inf or nan) is replaced by the fallback exactly then. Recovery of generating parameters is statistical and only covered by the fixed-seed witness of the repaired defect (nu was always inf). The real fit_mvstud's nu tape is replayed through the Float twin, which must reproduce every (mu, Sigma) iterate.",
          "DESIGN.md §6 C19"),
 })
+CLAIMED.update({
+ "C11": ("Lean 4 proof at ℝ on a linear-space (Rat-executable) model of the warm-up phase + scripted-batch correspondence on the real Sampler",
+         "For any number of prior-sampling iterations and any batches: if the first warm-up batch had -inf draws and every such batch has a finite fraction in [lo,hi], every recorded warm-up evidence lies in [lo,hi] (exactly f when all fractions equal f): the fraction is counted once, nothing compounds (the history-based estimate is a weighted harmonic mean); replacement of -inf draws by copies of finite ones leaves only finite log-likelihoods. The repaired compounding rule and the all-inf batch (known finding F8) are stated as theorems about the old / excluded behaviour. Real warm-up iterations with scripted numbers of finite draws must reproduce the Rat model's evidence.",
+         "DESIGN.md §6 C11"),
+ "C15": ("Lean 4 proof (list induction for the split loop; real algebra for the M-step) on executable models of the EM M-step / initialisation and of the hierarchical split loop driven by recorded decisions + toleranced and exact correspondence",
+         "Hierarchical model: the cluster list stays a partition of the training indices, every point gets exactly one label < K, K <= max_iterations+1, no accepted split has a child below min_points, argmax/argmin predictions are < K. M-step: mixing weights on the simplex, covariances symmetric PSD (diag >= 0), means convex combinations inside the bounding box for components with S_k >= tiny, integer weights equivalent to replication (weights, means, covariances incl. the +eps terms), initial responsibilities rows on the simplex. The whole-fit statement is conditional on finite non-negative responsibilities (scipy's density is outside the model). Real _m_step/_e_step/_initialize_parameters vs Float model; real HierarchicalGaussianMixture.fit replayed decision by decision.",
+         "DESIGN.md §6 C15"),
+})
 NOT_YET = {}
 props = [json.loads(l) for l in open(os.path.join(HERE, "properties.jsonl"))]
 checks, na = [], []
